@@ -12,9 +12,12 @@ naive / trend / design cases may carry an OBJECT HISTORY "hist": the same estima
 hist["params"], fitted on hist["y"] (origin hist["origin"]) and asked for a forecast, then re-parameterised with set_params
 (the case's parameters) and fitted on the case's data.  Every naive / trend case also asks for the forecast twice and
 compares the caller's series before and after.
+naive / trend / adapter cases may carry ANOTHER OBJECT "other" = {"params"| "opts", "y", "origin"}: a second estimator of the same
+class (same, default or other parameters) is constructed, fitted on other data and asked for a forecast BETWEEN fit and predict of
+the case's object, and again between its two predicts.
 `fh` holds RELATIVE steps; with rel = False the horizon is passed to sktime in absolute form (cutoff + step).
 """
-import itertools, math, warnings
+import itertools, math, os, warnings
 from fractions import Fraction
 import numpy as np, pandas as pd
 from common import canon_err, show_ints, show_bool, show_rat, show_rats, parse_rats, parse_ints, close, dyadic
@@ -49,6 +52,8 @@ OBLIGATIONS = [
     "SkVerif.C11.refit_forgets_history",
     "SkVerif.C11.naive_history_eq_fresh",
     "SkVerif.C11.trend_history_eq_fresh",
+    "SkVerif.C11.other_object_does_not_interfere_naive",
+    "SkVerif.C11.other_object_does_not_interfere_trend",
     "SkVerif.C11.es_forwards_every_option",
     "SkVerif.C11.ets_forwards_every_option",
     "SkVerif.C11.theta_wraps_ses",
@@ -67,9 +72,9 @@ ASSUMPTIONS = ["exact rational arithmetic (dyadic inputs; Python floats compared
                "Theta: only the wrapped SES share (forecast minus the drift the forecaster reports) is compared with statsmodels",
                "adapters: horizons not earlier than the first observation (statsmodels wraps negative positions)"]
 RULE = ("fixed-order small scope: every (strategy, n<=14, sp<=4, window_length in {None} u 1..n) x (full horizon {-3..9}, every single step, "
-        "random subsets) x (without / with NaN), all non-empty subsets of {-3..9} for 3 configurations (quick: seed-rotated 1/12 resp. 1/32 slice); "
+        "random subsets) x (without / with NaN), all non-empty subsets of {-3..9} for 2 configurations and every second one for a third (quick: seed-rotated 1/12 resp. 1/32 slice); "
         "structured random larger cases (n<60, sp<=12); malformed stream; trend values for degree 0..4, design matrices degree 0..5; "
-        "object history (about 1/3 of the naive and 1/2 of the trend/design cases: fit on other data with other parameters, predict, set_params, fit, predict; compared with the textbook value AND a fresh object), second predict and caller-series snapshot on every naive/trend case; "
+        "object history (about 1/3 of the naive and 1/2 of the trend/design cases: fit on other data with other parameters, predict, set_params, fit, predict; compared with the textbook value AND a fresh object), second predict and caller-series snapshot on every naive/trend case; another object of the same class (same / default / other parameters) fitted on other data between fit and predict and between the two predicts of the case's object (15% of the small-scope naive, 50% of the trend, 35% of the adapter cases), compared with the textbook value AND the object alone; static scan of the 7 anchored files for class-/module-level objects read by fit/predict; "
         "statsmodels-backed forecasters over the option product (ExponentialSmoothing: 5 trend spellings x damped x 5 seasonal spellings x initialisation x sp, Box-Cox, known initial states; AutoETS: error x trend x damped x seasonal x initialisation, maxiter; Theta: initial_level x sp): recorded constructor/fit keyword arguments vs the parameters of the forecaster, forecasts vs the statsmodels model built directly with the same options. distinct by driver line; non-trivial = a forecast with at least one finite value")
 LEVEL_TEXT = ("Lean 4 theorems (all series, periods, window lengths - multiples of the period or not -, horizons in-sample and "
               "out-of-sample) that the model of NaiveForecaster / PolynomialTrendForecaster / the statsmodels adapter computes the textbook "
@@ -243,6 +248,8 @@ def _st(name):
 
 def to_line(c):
     k = c["kind"]
+    if k == "scan":
+        return None
     h = c.get("hist")
     if k == "naive":
         tail = "%s %d %s %d %s %s %s" % (_st(c["strategy"]), c["sp"], _wl(c), c["origin"], show_rats(c["y"]),
@@ -324,24 +331,45 @@ def _run_object(c):
     else:
         f = _make(c)
 
+    other = c.get("other")
+    B = []
+
+    def meddle(stage):
+        """the other object's life goes on while the case's object is between two of its calls"""
+        if not other:
+            return
+        try:
+            hy = _series({"y": other["y"] if stage == 1 else other["y"][::-1], "origin": other["origin"] + stage - 1, "idx": "range"})
+            if not B:
+                B.append(_make(c, other["params"]))
+            B[0].fit(hy)
+            B[0].predict(fh=[1, 2])
+        except Exception:
+            pass
+
     def first():
         f.fit(y)
+        meddle(1)
         return f.predict(fh=_fh(c))
     p1 = _attempt(first)
     main = p1 if isinstance(p1, str) else _show_series(p1)
     flags = []
     if not isinstance(p1, str):
+        meddle(2)
         p2 = _attempt(lambda: f.predict(fh=_fh(c)))
         flags.append("again=" + show_bool(not isinstance(p2, str) and _same_series(p1, p2)))
     flags.append("kept=" + show_bool(_same_series(y, y_before)))
-    if h:
+    if h or other:
         def fresh():
             g = _make(c)
             g.fit(_series(c))
             return g.predict(fh=_fh(c))
         q = _attempt(fresh)
         same = (q == p1) if isinstance(p1, str) or isinstance(q, str) else _same_series(p1, q)
-        flags.append("fresh=" + show_bool(same))
+        if h:
+            flags.append("fresh=" + show_bool(same))
+        if other:
+            flags.append("alone=" + show_bool(same))
     return " ".join([main] + flags)
 
 
@@ -354,6 +382,8 @@ class _Spy:
 
     def __call__(self, endog, *a, **kw):
         import inspect
+        if "ctor" in self.rec:                              # only the first construction (the case's object) is recorded
+            return self.orig(endog, *a, **kw)
         b = inspect.signature(self.orig.__init__).bind(None, endog, *a, **kw)
         b.apply_defaults()
         self.rec["ctor"] = {k: v for k, v in b.arguments.items() if k not in ("self", "endog")}
@@ -374,46 +404,82 @@ class _Spy:
         return model
 
 
+def _adapter_module(cls):
+    if cls == "ets":
+        import sktime.forecasting.ets as M
+        return M, "_ETSModel"
+    import sktime.forecasting.exp_smoothing as M
+    return M, "_ExponentialSmoothing"
+
+
+def _make_adapter(cls, o):
+    if cls == "ets":
+        from sktime.forecasting.ets import AutoETS
+        return AutoETS(error=o["error"], trend=o["trend"], damped_trend=o["damped_trend"], seasonal=o["seasonal"], sp=o["sp"],
+                       initialization_method=o["initialization_method"], initial_level=o["initial_level"], initial_trend=o["initial_trend"],
+                       initial_seasonal=o["initial_seasonal"], maxiter=o["maxiter"])
+    if cls == "theta":
+        from sktime.forecasting.theta import ThetaForecaster
+        return ThetaForecaster(initial_level=o["initial_level"], deseasonalize=False, sp=o["sp"])
+    from sktime.forecasting.exp_smoothing import ExponentialSmoothing
+    return ExponentialSmoothing(trend=o["trend"], damped_trend=o["damped_trend"], seasonal=o["seasonal"], sp=o["sp"],
+                                initial_level=o["initial_level"], initial_trend=o["initial_trend"], initial_seasonal=o["initial_seasonal"],
+                                use_boxcox=o["use_boxcox"], initialization_method=o["initialization_method"])
+
+
 def _run_adapter(c):
     """sktime forecaster with the case's options; the statsmodels class it wraps is replaced by a recording stand-in.
     Output: forecast (or error) + ctor=<options the statsmodels constructor received> fitkw=<options fit received>"""
     y = _series(c)
-    o = _opts(c)
     rec = {}
-    if c["cls"] == "ets":
-        import sktime.forecasting.ets as M
-        name = "_ETSModel"
-        f = M.AutoETS(error=o["error"], trend=o["trend"], damped_trend=o["damped_trend"], seasonal=o["seasonal"], sp=o["sp"],
-                      initialization_method=o["initialization_method"], initial_level=o["initial_level"], initial_trend=o["initial_trend"],
-                      initial_seasonal=o["initial_seasonal"], maxiter=o["maxiter"])
-    else:
-        import sktime.forecasting.exp_smoothing as M
-        name = "_ExponentialSmoothing"
-        if c["cls"] == "theta":
-            from sktime.forecasting.theta import ThetaForecaster
-            f = ThetaForecaster(initial_level=o["initial_level"], deseasonalize=False, sp=o["sp"])
-        else:
-            f = M.ExponentialSmoothing(trend=o["trend"], damped_trend=o["damped_trend"], seasonal=o["seasonal"], sp=o["sp"],
-                                       initial_level=o["initial_level"], initial_trend=o["initial_trend"], initial_seasonal=o["initial_seasonal"],
-                                       use_boxcox=o["use_boxcox"], initialization_method=o["initialization_method"])
+    M, name = _adapter_module(c["cls"])
+    f = _make_adapter(c["cls"], _opts(c))
+    other = c.get("other")
+    B = []
+
+    def meddle(stage):
+        if not other:
+            return
+        try:
+            hy = _series({"y": other["y"] if stage == 1 else other["y"][::-1], "origin": other["origin"] + stage - 1, "idx": "range"})
+            if not B:
+                B.append(_make_adapter(c["cls"], _opts({"cls": c["cls"], "opts": other["opts"]})))
+            B[0].fit(hy)
+            B[0].predict(fh=[1, 2])
+        except Exception:
+            pass
+
+    def undrift(g, p):
+        if c["cls"] != "theta":
+            return p
+        # the adapter's share of the Theta forecast: what the wrapped SES model contributed.
+        # ThetaForecaster._predict = adapter forecast + drift; the drift it adds is recomputed from its
+        # public fitted attributes and removed, so that the wrapped-model part is compared like the others.
+        h = np.array(sorted(c["fh"]), dtype="float64")
+        a = g.initial_level_
+        return p - g.trend_ * (h if np.isclose(a, 0.0) else h + (1 - (1 - a) ** len(y)) / a)
     orig = getattr(M, name)
     setattr(M, name, _Spy(orig, rec))
     try:
         def go():
             f.fit(y)
-            p = f.predict(fh=_fh(c))
-            if c["cls"] == "theta":
-                # the adapter's share of the Theta forecast: what the wrapped SES model contributed.
-                # ThetaForecaster._predict = adapter forecast + drift; the drift it adds is recomputed from its
-                # public fitted attributes and removed, so that the wrapped-model part is compared like the others.
-                h = np.array(sorted(c["fh"]), dtype="float64")
-                a = f.initial_level_
-                drift = f.trend_ * (h if np.isclose(a, 0.0) else h + (1 - (1 - a) ** len(y)) / a)
-                p = p - drift
-            return p
+            meddle(1)
+            return undrift(f, f.predict(fh=_fh(c)))
         p = _attempt(go)
+        extra = []
+        if other and not isinstance(p, str):
+            meddle(2)
+            p2 = _attempt(lambda: undrift(f, f.predict(fh=_fh(c))))
+            extra.append("again=" + show_bool(not isinstance(p2, str) and _same_series(p, p2)))
     finally:
         setattr(M, name, orig)
+    if other:
+        def alone():
+            g = _make_adapter(c["cls"], _opts(c))
+            g.fit(_series(c))
+            return undrift(g, g.predict(fh=_fh(c)))
+        q = _attempt(alone)
+        extra.append("alone=" + show_bool((q == p) if isinstance(p, str) or isinstance(q, str) else _same_series(p, q)))
     if not isinstance(p, str):
         p = p.replace([np.inf, -np.inf], np.nan)            # non-finite results of statsmodels itself: one canonical token
     main = p if isinstance(p, str) else _show_series(p)
@@ -426,11 +492,60 @@ def _run_adapter(c):
             flags.append("fitkw=" + _show_args([(k, rec["fit"].get(k, "<missing>")) for k in fit_names]))
         else:                                               # fit() is documented to be called without options
             flags.append("fitkw=" + _show_args(sorted(rec["fit_given"].items())))
-    return " ".join([main] + flags)
+    return " ".join([main] + flags + extra)
+
+
+SCAN_FILES = ["sktime/forecasting/naive.py", "sktime/forecasting/trend.py", "sktime/forecasting/exp_smoothing.py",
+              "sktime/forecasting/ets.py", "sktime/forecasting/theta.py", "sktime/forecasting/base/_sktime.py",
+              "sktime/forecasting/base/adapters/_statsmodels.py"]
+_WORK_METHODS = ("fit", "predict", "update", "transform")
+
+
+def _scan_shared(path):
+    """class-level / module-level names bound to a constructed object or a mutable literal (an estimator, list, dict, set)
+    that a fit / predict / update method reads: state shared by every object of the class.  Returns sorted 'Class.name' list."""
+    import ast
+    tree = ast.parse(open(path).read())
+
+    def shared_value(v):
+        if isinstance(v, (ast.List, ast.Dict, ast.Set, ast.ListComp, ast.DictComp, ast.SetComp)):
+            return True
+        if isinstance(v, ast.Call):
+            fn = v.func.id if isinstance(v.func, ast.Name) else v.func.attr if isinstance(v.func, ast.Attribute) else ""
+            return fn not in ("tuple", "frozenset", "str", "int", "float", "bool", "property", "staticmethod", "classmethod", "getLogger")
+        return False
+
+    def targets(node):
+        ts = node.targets if isinstance(node, ast.Assign) else [node.target]
+        return [t.id for t in ts if isinstance(t, ast.Name) and not (t.id.startswith("__") and t.id.endswith("__"))]
+
+    found = []
+    module_names = [n for st in tree.body if isinstance(st, (ast.Assign, ast.AnnAssign)) and getattr(st, "value", None) is not None
+                    and shared_value(st.value) for n in targets(st)]
+    for cls in [n for n in ast.walk(tree) if isinstance(n, ast.ClassDef)]:
+        class_names = [n for st in cls.body if isinstance(st, (ast.Assign, ast.AnnAssign)) and getattr(st, "value", None) is not None
+                       and shared_value(st.value) for n in targets(st)]
+        for fn in [n for n in cls.body if isinstance(n, (ast.FunctionDef, ast.AsyncFunctionDef))]:
+            if not any(w in fn.name for w in _WORK_METHODS):
+                continue
+            for node in ast.walk(fn):
+                if isinstance(node, ast.Attribute) and node.attr in class_names and isinstance(node.value, ast.Name) \
+                        and node.value.id in ("self", "cls", cls.name) and isinstance(node.ctx, ast.Load):
+                    found.append("%s.%s@%s" % (cls.name, node.attr, fn.name))
+                if isinstance(node, ast.Name) and node.id in module_names and isinstance(node.ctx, ast.Load):
+                    found.append("%s@%s.%s" % (node.id, cls.name, fn.name))
+    return sorted(set(found))
 
 
 def run_real(c):
     k = c["kind"]
+    if k == "scan":
+        import sktime
+        root = os.path.dirname(os.path.dirname(os.path.abspath(sktime.__file__)))
+        try:
+            return "scanned scan=" + (",".join(_scan_shared(os.path.join(root, c["file"]))) or "-")
+        except Exception as e:
+            return "scanned scan=unparsable:" + type(e).__name__
     with warnings.catch_warnings():
         warnings.simplefilter("ignore")
         with np.errstate(all="ignore"):
@@ -466,7 +581,7 @@ def run_real(c):
 
 
 # ----------------------------------------------------------------------------- comparison
-FLAGS = ("again=", "kept=", "fresh=", "ctor=", "fitkw=")
+FLAGS = ("again=", "kept=", "fresh=", "alone=", "ctor=", "fitkw=", "scan=")
 
 
 def _split(out):
@@ -741,6 +856,11 @@ def oracle_adapter(c, out):
 
 def oracle(c, out):
     main, flags = _split(out)
+    if c["kind"] == "scan":
+        hits = [] if flags.get("scan", "-") == "-" else flags["scan"].split(",")
+        return [("scan:%s:%s:shared-object-used-by-fit-or-predict" % (os.path.basename(c["file"]), h.split("@")[0]),
+                 "%s: %s is one object shared by every instance and is read in %s (not cloned / not created per fit)" % (c["file"], h.split("@")[0], h.split("@")[1]))
+                for h in hits]
     fails = {"naive": oracle_naive, "trend": oracle_trend, "design": oracle_design, "adapter": oracle_adapter}[c["kind"]](c, main)
     if c.get("hist"):
         # the textbook clauses above were evaluated for the NEW parameters and data: a failure here is a stale-state failure
@@ -759,7 +879,14 @@ def oracle(c, out):
         if any(":ctor-options:" in k for k, _ in fails):
             # a rejection by statsmodels that follows from wrong options is reported once, by its cause
             fails = [(k, m) for k, m in fails if not k.endswith(":raises")]
-    site = c["kind"] + (":" + c["strategy"] if c["kind"] == "naive" else "")
+    site = c["kind"] + (":" + c["strategy"] if c["kind"] == "naive" else ":" + c["cls"] if c["kind"] == "adapter" else "")
+    if c.get("other"):
+        what = c["other"].get("params", c["other"].get("opts"))
+        fails = [(k + ":other-object-alive", m + " [another object %r was fitted on other data between fit and predict]" % (what,)) for k, m in fails]
+        if flags.get("alone") == "F":
+            fails.append((site + ":other-object-interferes",
+                          "the forecast differs from the one the same object gives when no other object of its class is fitted in between "
+                          "(%s; other object: %r)" % (_desc(c), what)))
     if flags.get("again") == "F":
         fails.append((site + ":second-predict-differs", "a second predict(fh) on the same fitted object does not repeat the first answer (%s)" % _desc(c)))
     if flags.get("kept") == "F":
@@ -771,6 +898,8 @@ def oracle(c, out):
 
 # ----------------------------------------------------------------------------- evidence helpers
 def nontrivial(c, out):
+    if c["kind"] == "scan":
+        return True
     out = _split(out)[0]
     if out.startswith("E:"):
         return False
@@ -781,8 +910,11 @@ def nontrivial(c, out):
 
 
 def features(c, out):
+    if c["kind"] == "scan":
+        return ["kind=scan", "scan " + _split(out)[1].get("scan", "?")[:40]]
     out, flags = _split(out)
-    f = ["kind=" + c["kind"], "history=" + ("refit-after-set_params" if c.get("hist") else "fresh-object")]
+    f = ["kind=" + c["kind"], "history=" + ("refit-after-set_params" if c.get("hist") else "fresh-object"),
+         "other-object=" + ("alive" if c.get("other") else "none")]
     f += ["%s=%s" % kv for kv in sorted(flags.items())]
     if c["kind"] == "naive":
         f.append("naive=%s/sp%s" % (c["strategy"], "1" if c["sp"] == 1 else ">1"))
@@ -844,17 +976,44 @@ def _hist_trend(rng):
             "origin": rng.choice(ORIGINS)}
 
 
-def _naive(rng, st, sp, wl, n, fh, nan=False, hist=0.3, **kw):
+def _naive(rng, st, sp, wl, n, fh, nan=False, hist=0.3, other_prob=0.15, **kw):
     c = dict({"kind": "naive", "strategy": st, "sp": sp, "wl": wl, "y": _values(rng, n, nan), "origin": rng.choice(ORIGINS),
               "idx": rng.choice(["range", "range", "int"]), "fh": list(fh), "rel": rng.random() < 0.7}, **kw)
     if rng.random() < hist:
         c["hist"] = _hist_naive(rng)
-    return c
+    return _with_other(rng, c, other_prob)
 
 
 def _with_hist(rng, c, prob=0.5):
     if rng.random() < prob:
         c["hist"] = _hist_trend(rng)
+    if c["kind"] == "trend":
+        _with_other(rng, c, 0.5)
+    return c
+
+
+def _with_other(rng, c, prob):
+    """another object of the same class: same parameters (1/2), default parameters (1/4), other parameters (1/4)"""
+    if rng.random() >= prob:
+        return c
+    mode = rng.choice(["same", "same", "default", "other"])
+    if c["kind"] == "naive":
+        if mode == "same" and c["strategy"] in ("last", "mean", "drift"):
+            params = {"strategy": c["strategy"], "sp": c["sp"], "wl": c["wl"]}
+            n0 = max(len(c["y"]), 2) + rng.randrange(0, 3)
+            c["other"] = {"params": params, "y": _values(rng, n0), "origin": rng.choice(ORIGINS)}
+        elif mode == "default":
+            c["other"] = {"params": {"strategy": "last", "sp": 1, "wl": None}, "y": _values(rng, rng.randrange(2, 9)), "origin": rng.choice(ORIGINS)}
+        else:
+            c["other"] = _hist_naive(rng)
+    elif c["kind"] == "trend":
+        params = {"degree": c["degree"], "icpt": c["icpt"]} if mode == "same" else {"degree": 1, "icpt": True} if mode == "default" else _hist_trend(rng)["params"]
+        c["other"] = {"params": params, "y": _values(rng, rng.randrange(2, 12)), "origin": rng.choice(ORIGINS)}
+    elif c["kind"] == "adapter":
+        opts = dict(c.get("opts") or {}) if mode == "same" else {} if mode == "default" else \
+            ({"trend": "add", "damped_trend": True} if c["cls"] != "theta" else {"initial_level": 25.0, "sp": 1})
+        sp = (opts.get("sp") or 1) if c["cls"] != "theta" else 1
+        c["other"] = {"opts": opts, "y": _positive_series(rng, rng.randrange(20, 30), sp), "origin": rng.choice(ORIGINS)}
     return c
 
 
@@ -886,8 +1045,8 @@ def _adapter_case(rng, cls, opts, sp_for_data=None):
     y = _positive_series(rng, n, sp_for_data)
     pool = list(range(-min(n - 1, 6), 13))
     fh = sorted(rng.sample(pool, rng.randrange(1, 7)))
-    return {"kind": "adapter", "cls": cls, "opts": opts, "y": y, "origin": rng.choice(ORIGINS), "idx": rng.choice(["range", "int"]),
-            "fh": fh, "rel": rng.random() < 0.7}
+    return _with_other(rng, {"kind": "adapter", "cls": cls, "opts": opts, "y": y, "origin": rng.choice(ORIGINS), "idx": rng.choice(["range", "int"]),
+                             "fh": fh, "rel": rng.random() < 0.7}, 0.35)
 
 
 def adapter_cases(thorough, rng):
@@ -942,7 +1101,7 @@ def adapter_cases(thorough, rng):
 
 def gen_cases(tier, rng):
     thorough = tier == "thorough"
-    cases = []
+    cases = [{"kind": "scan", "file": f} for f in SCAN_FILES]
     # 1. small scope: all configs x (full horizon, every single step, random subsets) x (no NaN, NaN)
     k = 0
     rot = rng.randrange(24)
@@ -955,7 +1114,7 @@ def gen_cases(tier, rng):
             fhs.append(sorted(rng.sample(UNIVERSE, rng.randrange(2, 8))))
         for fh in fhs:
             cases.append(_naive(rng, st, sp, wl, n, fh, nan=False))
-            if thorough or rng.random() < 0.5:
+            if (thorough and len(fh) > 1) or rng.random() < 0.5:
                 cases.append(_naive(rng, st, sp, wl, n, fh, nan=True))
     # 2. every non-empty subset of {-3..9} for a few configurations
     subsets_cfgs = [("last", 3, None, 7), ("mean", 3, 7, 8), ("drift", 1, 4, 6)]
@@ -964,7 +1123,9 @@ def gen_cases(tier, rng):
         for si, fh in enumerate(allsub):
             if not thorough and (si + rot + ci) % 32 != 0:
                 continue
-            cases.append(_naive(rng, st, sp, wl, n, fh, nan=rng.random() < 0.2))
+            if thorough and st == "drift" and (si + rot) % 2 != 0:
+                continue
+            cases.append(_naive(rng, st, sp, wl, n, fh, nan=rng.random() < 0.2, hist=0.15, other_prob=0.08))
     # 3. structured random, larger
     for _ in range(4000 if thorough else 700):
         st = rng.choice(["last", "mean", "mean", "drift"])
@@ -1025,6 +1186,8 @@ def gen_cases(tier, rng):
 
 
 def shrink(c):
+    if c.get("other") and c.get("hist"):
+        yield {k: v for k, v in c.items() if k != "hist"}
     if c.get("hist"):
         yield {k: v for k, v in c.items() if k != "hist"}
         hy = c["hist"]["y"]
